@@ -12,7 +12,7 @@ use std::sync::Arc;
 
 pub const STRINGS: &[&str] = &[
     "", "a", " a b ", "héllo", "日本", "a\0b", "🦀", "AbC", "x,y,,z", "\t x \n", "١٢٣", "+5", "-0", "9223372036854775807", "9223372036854775808",
-    "-9223372036854775808", "1e5", "inf", "NaN", "0x10", "  12", "12 ", "1_000", "ß", "İ", "ǅ", "\u{85}x\u{a0}", ",", "aaa", "aa", "e\u{301}", "\u{2028}", "1.5", "-1.5e-3", ".5", "5.",
+    "-9223372036854775808", "1e5", "inf", "NaN", "0x10", "  12", "12 ", "1_000", "ß", "İ", "ǅ", "\u{85}x\u{a0}", ",", "aaa", "aa", "e\u{301}", "\u{2028}", "1.5", "-1.5e-3", ".5", "5.", "\u{fffd}", "a\u{fffd}b\u{fffd}", "\u{feff}x", "\u{ffff}", "\u{10ffff}", "\u{d7ff}\u{e000}", "\u{7f}\u{80}\u{7ff}\u{800}",
 ];
 
 fn walk(v: &Variable, path: String, funcs: &mut Vec<(String, Arc<Function>)>, consts: &mut Vec<(String, Variable)>) {
@@ -36,6 +36,16 @@ fn int_list() -> Vec<Variable> {
 
 fn byte_arrays() -> Vec<Variable> {
     let mk = |v: &[i64]| Variable::from(v.iter().map(|i| Variable::Int(*i)).collect::<Vec<_>>());
+    let mut out = byte_arrays_fixed();
+    // the encoding of every string of the pool (so that decoding is also judged as the inverse of `bytes`)
+    for s in STRINGS {
+        out.push(mk(&s.as_bytes().iter().map(|b| *b as i64).collect::<Vec<_>>()));
+    }
+    out
+}
+
+fn byte_arrays_fixed() -> Vec<Variable> {
+    let mk = |v: &[i64]| Variable::from(v.iter().map(|i| Variable::Int(*i)).collect::<Vec<_>>());
     vec![
         mk(&[]),
         mk(&[104, 105]),
@@ -51,6 +61,28 @@ fn byte_arrays() -> Vec<Variable> {
         mk(&[0xF4, 0x90, 0x80, 0x80]),
         mk(&[i64::MIN, i64::MAX, 65]),
         mk(&[0x141, 0x142]),
+        // well-formed encodings of unusual characters: U+FFFD itself, non-characters, BOM, the ends of each length class
+        mk(&[0xEF, 0xBF, 0xBD]),
+        mk(&[65, 0xEF, 0xBF, 0xBD, 66, 0xEF, 0xBF, 0xBD]),
+        mk(&[0xEF, 0xBF, 0xBE]),
+        mk(&[0xEF, 0xBF, 0xBF]),
+        mk(&[0xEF, 0xBB, 0xBF, 120]),
+        mk(&[0xEF, 0xBF, 0xBC]),
+        mk(&[0xF4, 0x8F, 0xBF, 0xBF]),
+        mk(&[0xED, 0x9F, 0xBF, 0xEE, 0x80, 0x80]),
+        mk(&[0x7F, 0xC2, 0x80, 0xDF, 0xBF, 0xE0, 0xA0, 0x80]),
+        mk(&[0xF0, 0x90, 0x80, 0x80]),
+        // ill-formed neighbours of those
+        mk(&[0xE0, 0x80, 0x80]),
+        mk(&[0xE0, 0x9F, 0xBF]),
+        mk(&[0xF0, 0x80, 0x80, 0x80]),
+        mk(&[0xF0, 0x8F, 0xBF, 0xBF]),
+        mk(&[0xEF, 0xBF]),
+        mk(&[0xEF, 0xBF, 0xBD, 0xFF]),
+        mk(&[0x80]),
+        mk(&[0xC1, 0xBF]),
+        mk(&[0xF5, 0x80, 0x80, 0x80]),
+        mk(&[0xF8, 0x88, 0x80, 0x80, 0x80]),
     ]
 }
 
@@ -495,7 +527,7 @@ fn fs_scenarios(ctx: &mut Ctx, funcs: &BTreeMap<String, Arc<Function>>, cfg: &Cf
     type Check = Box<dyn Fn(&std::path::Path, &Variable) -> Option<String>>;
     let exists = |rel: &'static str, want: bool| -> Check { Box::new(move |r: &std::path::Path, _v: &Variable| (r.join(rel).exists() != want).then(|| format!("{rel} should {}exist afterwards", if want { "" } else { "not " }))) };
     let none: fn() -> Check = || Box::new(|_r: &std::path::Path, _v: &Variable| None);
-    let cases: Vec<(&str, Vec<Variable>, bool, Check)> = vec![
+    let mut cases: Vec<(&str, Vec<Variable>, bool, Check)> = vec![
         ("fs.file_read_to_string", vec![sv(&p("file.txt"))], true, Box::new(|_r, v| (canon(v) != "\"hello\"").then(|| format!("content read as {}", canon(v))))),
         ("fs.file_read_to_string", vec![sv(&p("missing.txt"))], false, none()),
         ("fs.file_read_to_string", vec![sv(&p("dir_empty"))], false, none()),
@@ -555,6 +587,24 @@ fn fs_scenarios(ctx: &mut Ctx, funcs: &BTreeMap<String, Arc<Function>>, cfg: &Cf
         ("fs.remove_dir_all", vec![sv(&p("file.txt"))], false, none()),
         ("fs.remove_file", vec![sv(&p("dir_nonempty"))], false, none()),
     ];
+    // a target that opens but refuses the data (device full): the refusal must be reported whatever the size of the contents.
+    // Only where the host sees the same refusal (the expectation is the operating system's, observed just now).
+    if std::fs::write("/dev/full", "x").is_err() {
+        for n in [1usize, 100, 8191, 8192, 8193, 70_000] {
+            cases.push(("fs.write_to_file", vec![sv("/dev/full"), sv(&"y".repeat(n))], false, none()));
+        }
+        cases.push(("fs.copy_file", vec![sv(&p("file.txt")), sv("/dev/full")], false, none()));
+    }
+    if std::fs::write("/dev/null", "x").is_ok() {
+        cases.push(("fs.write_to_file", vec![sv("/dev/null"), sv("discarded")], true, none()));
+        cases.push(("fs.file_read_to_string", vec![sv("/dev/null")], true, Box::new(|_r, v| (canon(v) != "\"\"").then(|| format!("/dev/null read as {}", canon(v))))));
+    }
+    // contents around and above the usual buffer sizes arrive whole
+    for n in [8191usize, 8192, 8193, 65_536, 300_001] {
+        let data: String = (0..n).map(|k| char::from(b'a' + (k % 23) as u8)).collect();
+        let want = data.clone();
+        cases.push(("fs.write_to_file", vec![sv(&p("big.txt")), sv(&data)], true, Box::new(move |r, _| (std::fs::read_to_string(r.join("big.txt")).ok().as_deref() != Some(want.as_str())).then(|| format!("big.txt does not hold the {} bytes written", want.len())))));
+    }
     // the scratch tree as (relative path, contents or "<dir>"), to see that a call reporting failure changed nothing
     fn tree(root: &std::path::Path) -> Vec<(String, Vec<u8>)> {
         fn walk(dir: &std::path::Path, root: &std::path::Path, out: &mut Vec<(String, Vec<u8>)>) {
